@@ -98,6 +98,8 @@ func collectPatterns(t *Term, binders map[string]bool, out *[]qpattern) {
 	switch t.Op {
 	case "select", "store":
 		check(t.Args[1])
+	case "mod", "div":
+		check(t.Args[0])
 	case "app":
 		for _, a := range t.Args {
 			check(a)
